@@ -727,7 +727,8 @@ pub fn main(args: &[String]) {
                 line.push_str(&format!(" --inject {}", inject));
             }
             if !ignore.is_empty() {
-                line.push_str(&format!(" --ignore {}", ignore.join(",")));
+                // one token: spaces become '_' (the matcher accepts both forms)
+                line.push_str(&format!(" --ignore {}", ignore.join(",").replace(' ', "_")));
             }
             if strict {
                 line.push_str(" --strict");
